@@ -290,10 +290,6 @@ theorem clearArch_post {c : CW} (hi : Inv c) (hb : Bounds c) (i : Nat) :
       have h2 := AllKeys.keysSame (P := fun _ sh => SharedIn w.pool sh) hi.shared hks
       show AllKeys (fun _ sh => SharedIn (w.clearArch info i).1.pool sh) _
       rw [hsame.pool]; exact h2
-    closed := by
-      have h2 := AllKeys.keysSame (P := fun mk _ => ClosedUnder w.deps mk) hi.closed hks
-      show AllKeys (fun mk _ => ClosedUnder (w.clearArch info i).1.deps mk) _
-      rw [hsame.deps]; exact h2
     depsB := by show DepsBounded (w.clearArch info i).1.deps; rw [hsame.deps]; exact hi.depsB
     locsCover := by
       show (w.clearArch info i).1.slots.length ≤ (w.clearArch info i).1.locs.length
